@@ -10,6 +10,7 @@ package main
 import (
 	"bytes"
 	"context"
+	"encoding/json"
 	"fmt"
 	"reflect"
 	"runtime"
@@ -351,6 +352,21 @@ type op struct {
 	name string
 	a, b int
 	c, d int
+}
+
+type opJSON struct {
+	Name       string `json:"op"`
+	A, B, C, D int
+}
+
+func (o op) MarshalJSON() ([]byte, error) { return json.Marshal(opJSON{o.name, o.a, o.b, o.c, o.d}) }
+func (o *op) UnmarshalJSON(b []byte) error {
+	var j opJSON
+	if err := json.Unmarshal(b, &j); err != nil {
+		return err
+	}
+	*o = op{j.Name, j.A, j.B, j.C, j.D}
+	return nil
 }
 
 func (o op) String() string { return fmt.Sprintf("%s(%d,%d,%d,%d)", o.name, o.a, o.b, o.c, o.d) }
@@ -735,11 +751,8 @@ func report(r *ev.Run, j job, seq []op, what string) {
 }
 
 func main() {
+	ev.ReplayHandler = replayDetail
 	r := ev.Start("C11", "model_checking")
-	if r.Replay != "" {
-		replay(r)
-		return
-	}
 	depth := 2
 	n := 5
 	deepCombos := map[string]bool{"int": true}
@@ -798,6 +811,31 @@ func budget(r *ev.Run) time.Duration {
 	return 4 * time.Minute
 }
 
-func replay(r *ev.Run) {
-	ev.Fatal("replay: use harness/regress tests; file %s", r.Replay)
+// replayDetail re-executes a recorded operation sequence on a fresh real frame (twice)
+// and prints what the oracle says now.
+func replayDetail(detail json.RawMessage) bool {
+	var d struct {
+		Combo string `json:"combo"`
+		N     int    `json:"n"`
+		Off   int    `json:"off"`
+		Len   int    `json:"len"`
+		Seq   []op   `json:"seq"`
+	}
+	if json.Unmarshal(detail, &d) != nil || d.Combo == "" {
+		return false
+	}
+	for _, tc := range combos {
+		if tc.name != d.Combo {
+			continue
+		}
+		for i := 0; i < 2; i++ {
+			res := runSeq(tc, d.N, d.Off, d.Len, d.Seq, true)
+			if res == "" {
+				res = "no failure: the view agrees with the model after every step"
+			}
+			fmt.Printf("  re-execution %d: type %s, parent of %d rows, view off=%d len=%d, ops %v: %s\n", i+1, d.Combo, d.N, d.Off, d.Len, d.Seq, res)
+		}
+		return true
+	}
+	return false
 }
